@@ -200,6 +200,12 @@ func generate(prop string, seed uint64, run int, tier string) *Scenario {
 			sc.FO.PlainExpired = true
 		}
 
+		// C03: an ExpireAll (invalidation) right before the Get; only for entries that are expired already, whose
+		// state it must not change
+		if prop == "C03" && len(sc.FO.Init) > 0 && sc.FO.Init[0].State == "stale" && !sc.FO.DefaultBackend && chance(lr, 0.15) {
+			sc.FO.ExpireAllFirst = true
+		}
+
 		// mutability observation switched on without a stats tracker (nothing to report the observation to)
 		if !sc.FO.Cfg.Stats && chance(lr, 0.08) {
 			sc.FO.Cfg.ObserveMutability = true
